@@ -168,3 +168,484 @@ def register(cls):
 
 
 register(C05)
+
+
+# ----------------------------------------------------------------------------------------- C01
+
+class C01(SimSpec):
+    prop = 'C01'
+    cases = {'quick': 400, 'thorough': 12000}
+    rule = ("scenarios x {4 shipped pairings with injected delays, Adversary decision programs}; few machines relative to "
+            "ready tasks; non-trivial = at least one scheduling round with more ready tasks than free machines, or at "
+            "least one illegal proposal (busy-task / busy-ingest / duplicate / foreign-reserved / resubmission) made by the algorithm; "
+            "distinct = distinct canonical scenario JSON")
+    level_text = ("exploration: in SimPy event order, per machine at most one do_work body and one cluster allocation "
+                  "are ever active, every do_work lies inside the allocation of the same (task, machine), ingest only gets free "
+                  "machines; adversarial proposals are either skipped or the run raises - never executed")
+
+    def strategy(self, tier):
+        kw = self.gen_kwargs(tier)
+        shipped = scenarios(delays=True, few_machines=True, min_obs=2, **kw)
+        shipped2 = scenarios(delays=True, **kw)
+        adv = scenarios(adversary=True, delays=True, **kw)
+        advfew = scenarios(adversary=True, few_machines=True, min_obs=2, **kw)
+        return mix((3, shipped), (2, shipped2), (3, adv), (2, advfew))
+
+    def aborted(self, tr):
+        return tr.status != 'completed' and tr.sc['alg']['kind'] != 'adversary'
+
+    def nontrivial(self, tr):
+        c = tr.counts
+        return bool(c.get('rounds_more_ready_than_free') or any(k.startswith('illegal_') for k in c))
+
+    def classes(self, tr):
+        c = tr.counts
+        out = {k: v for k, v in c.items() if k.startswith('illegal_') or k in ('alloc_refused', 'rounds_more_ready_than_free')}
+        if tr.sc['alg']['kind'] == 'adversary':
+            out[f"adversary_{tr.status}"] = 1
+            if tr.status == 'raised':
+                out[f"adversary_raised:{tr.exc_sig}"] = 1
+        return out
+
+    def summary(self, tr):
+        s = super().summary(tr)
+        s['illegal'] = {k: v for k, v in tr.counts.items() if k.startswith('illegal_')}
+        s['allocations'] = len(tr.allocs)
+        s['refused_by_cluster'] = tr.counts.get('alloc_refused', 0)
+        return s
+
+
+# ----------------------------------------------------------------------------------------- C03
+
+class C03(SimSpec):
+    prop = 'C03'
+    cases = {'quick': 400, 'thorough': 12000}
+    rule = ("scenarios (all shipped pairings, heterogeneous bandwidths, zero and non-divisible edge volumes, static plans that "
+            "pile successors on the predecessor's machine, injected delays); non-trivial = the executed run has at least one "
+            "cross-machine edge with volume > 0 AND at least one same-machine edge; distinct = distinct canonical scenario JSON")
+    level_text = ("exploration: for every workflow edge ast(t) >= aft(p), and ast(t) == max(allocation time, "
+                  "aft(p) + volume/bandwidth(receiver) over cross-machine predecessors), tolerance 1e-6")
+
+    def strategy(self, tier):
+        kw = self.gen_kwargs(tier)
+        kw['max_nodes'] = max(kw['max_nodes'], 7)
+        return mix((2, scenarios(delays=True, piled_plans=True, **kw)),
+                   (1, scenarios(delays=True, piled_plans=True, few_machines=True, **kw)))
+
+    def nontrivial(self, tr):
+        cross, same = O.C03_classes(tr)
+        tr._c03 = (cross, same)
+        return cross >= 1 and same >= 1
+
+    def classes(self, tr):
+        cross, same = getattr(tr, '_c03', None) or O.C03_classes(tr)
+        return {'cross_machine_edges_with_volume': cross, 'same_machine_edges': same,
+                'transfer_wait_delayed_start': tr.counts.get('transfer_wait_delayed_start', 0)}
+
+    def summary(self, tr):
+        s = super().summary(tr)
+        s['edges_cross_same'] = list(getattr(tr, '_c03', (0, 0)))
+        s['starts_delayed_by_transfer'] = tr.counts.get('transfer_wait_delayed_start', 0)
+        return s
+
+
+# ----------------------------------------------------------------------------------------- C04
+
+def concurrent_workflows(tr):
+    iv = sorted((r['alloc_started_at'], r['dequeued_at']) for r in tr.obs.values()
+                if r['alloc_started_at'] is not None and r['dequeued_at'] is not None)
+    return any(iv[i + 1][0] < iv[i][1] for i in range(len(iv) - 1))
+
+
+class C04(SimSpec):
+    prop = 'C04'
+    cases = {'quick': 400, 'thorough': 12000}
+    rule = ("scenarios x {shipped pairings, Adversary programs} with injected delays; judged on runs that return from start(); "
+            "non-trivial = completed run in which >= 2 workflows were in progress simultaneously, or a completed Adversary run "
+            "with >= 1 illegal proposal; distinct = distinct canonical scenario JSON")
+    level_text = ("exploration: every observation begun/finished once, every ingest task and workflow node executed exactly "
+                  "once, task table has exactly one row per executed task, and on return no allocation/queue entry/reservation "
+                  "remains, all machines available, both buffers full")
+
+    def strategy(self, tier):
+        kw = self.gen_kwargs(tier)
+        return mix((5, scenarios(delays=True, min_obs=2, **kw)), (1, scenarios(delays=True, **kw)),
+                   (3, scenarios(adversary=True, delays=True, **kw)))
+
+    def aborted(self, tr):
+        return tr.status != 'completed' and tr.sc['alg']['kind'] != 'adversary'
+
+    def nontrivial(self, tr):
+        if tr.status != 'completed':
+            return False
+        if tr.sc['alg']['kind'] == 'adversary':
+            return any(k.startswith('illegal_') for k in tr.counts)
+        return concurrent_workflows(tr)
+
+    def classes(self, tr):
+        out = {}
+        if tr.status == 'completed':
+            out['completed_concurrent_workflows'] = int(concurrent_workflows(tr))
+        if tr.sc['alg']['kind'] == 'adversary':
+            out[f"adversary_{tr.status}"] = 1
+        return out
+
+    def summary(self, tr):
+        s = super().summary(tr)
+        s['executed_tasks'] = len(tr.works)
+        s['task_table_rows'] = None if tr.tasks_df is None else len(tr.tasks_df)
+        return s
+
+
+# ----------------------------------------------------------------------------------------- C07
+
+def with_rejection(sc_strategy):
+    """rejection class: one observation's data rate exceeds the hot buffer's maximum ingest rate"""
+    def mk(pair):
+        sc, k = pair
+        sc = json.loads(json.dumps(sc))
+        idx = k % len(sc['obs'])
+        sc['hot']['rate'] = sc['obs'][idx]['rate'] - 1
+        sc['reject'] = [o['name'] for o in sc['obs'] if o['rate'] > sc['hot']['rate']]
+        return sc
+    return st.tuples(sc_strategy, st.integers(0, 7)).map(mk)
+
+
+class C07(SimSpec):
+    prop = 'C07'
+    cases = {'quick': 400, 'thorough': 12000}
+    rule = ("scenarios in roomy and serialising-band buffer modes (overlapping observations, different rates/durations, "
+            "timestep units, long and short workflows) + ~10% rejection class (an observation whose rate exceeds the hot "
+            "buffer's max ingest rate) + ~10% in-region tiering probe; non-trivial = >= 2 observations resident in the hot "
+            "buffer simultaneously, or a rejection-class case; distinct = distinct canonical scenario JSON")
+    level_text = ("exploration: ledger rebuilt from wrapped deposit/remove calls: after every event 0 <= free <= capacity for both "
+                  "tiers and hot used == data of resident observations; each observation deposits exactly its per-step rate in "
+                  "exactly `duration` consecutive steps from its start; over-rate ingest raises ValueError before depositing; "
+                  "completed runs end with both tiers full")
+
+    def strategy(self, tier):
+        kw = self.gen_kwargs(tier)
+        main = scenarios(units=True, delays=True, min_obs=2, **kw)
+        rej = with_rejection(scenarios(units=True, **kw))
+        probe = scenarios(modes=('tiering',), min_obs=2, **kw)
+        return mix((8, main), (1, rej), (1, probe))
+
+    def violations(self, tr):
+        out = O.C07(tr)
+        rej = tr.sc.get('reject')
+        if rej:
+            if tr.status == 'completed':
+                out.append(O.V('C07', 'rate_not_enforced', f"observations {rej} exceed the hot buffer's max ingest rate but the run completed"))
+            elif tr.status == 'raised':
+                if not tr.exc_sig.startswith('ValueError@core/buffer.py'):
+                    out.append(O.V('C07', 'wrong_rejection', f"over-rate ingest ended with {tr.exc_sig}, expected ValueError from the hot buffer"))
+            for name in rej:
+                if tr.obs[name]['deposits']:
+                    out.append(O.V('C07', 'over_rate_deposited', f"{name} deposited {tr.obs[name]['deposits']} although its rate exceeds the limit"))
+        return out
+
+    def sig(self, v, tr):
+        if v['part'] == 'hot_negative' and v.get('joint'):
+            return 'joint_over_admission'
+        if v['part'] == 'hot_negative' and v.get('tier_moves'):
+            return 'hot_negative_after_tier_move'
+        return v['part']
+
+    def aborted(self, tr):
+        return tr.status != 'completed' and not tr.sc.get('reject')
+
+    def nontrivial(self, tr):
+        if tr.sc.get('reject'):
+            return True
+        return tr.extra.get('max_resident', 0) >= 2 or max_resident(tr) >= 2
+
+    def classes(self, tr):
+        out = {'max_resident>=2': int(max_resident(tr) >= 2), 'tiering_entered': int(tr.tiering_entered)}
+        if tr.sc.get('reject'):
+            out['rejection_class'] = 1
+            out[f"rejection_{tr.status}"] = 1
+        if tr.sc['mode'] == 'tiering':
+            out['in_region_probe'] = 1
+        return out
+
+    def summary(self, tr):
+        s = super().summary(tr)
+        s['deposits'] = {n: [list(d) for d in r['deposits'][:6]] for n, r in tr.obs.items()}
+        s['reject'] = tr.sc.get('reject')
+        s['max_resident'] = max_resident(tr)
+        return s
+
+
+def max_resident(tr):
+    """largest number of observations simultaneously resident in the hot buffer (from the ledger)"""
+    ev = []
+    for r in tr.obs.values():
+        if r['deposits']:
+            ev.append((r['deposits'][0][0], 1))
+            if r['freed_at'] is not None:
+                ev.append((r['freed_at'], -1))
+    ev.sort(key=lambda x: (x[0], x[1]))
+    cur = best = 0
+    for _, d in ev:
+        cur += d
+        best = max(best, cur)
+    return best
+
+
+# ----------------------------------------------------------------------------------------- C08
+
+class C08(SimSpec):
+    prop = 'C08'
+    cases = {'quick': 400, 'thorough': 12000}
+    rule = ("scenarios with >= 2 observations (simultaneous / overlapping / back-to-back / gapped starts, array demands above and "
+            "below the total, ingest demands against the limit, roomy and serialising-band buffers, all shipped pairings); "
+            "non-trivial = at least one observation start was postponed AND at least one on-time start while the system was idle; "
+            "distinct = distinct canonical scenario JSON")
+    level_text = ("exploration: at each begin_observation the shadow model must show: now >= planned start, enough free arrays, "
+                  "enough free unreserved machines not already promised in this step, ingest limit respected, hot and cold room "
+                  "for the whole volume; limits hold after every event; ingest holds exactly the demand from the start for the "
+                  "duration; status sequence WAITING->RUNNING->FINISHED; idle system => start exactly on time")
+
+    def strategy(self, tier):
+        kw = self.gen_kwargs(tier)
+        return mix((3, scenarios(min_obs=2, delays=True, **kw)),
+                   (1, scenarios(min_obs=2, few_machines=True, **kw)),
+                   (1, scenarios(min_obs=3, start_gaps=(0, 0, 1), **kw)))
+
+    def nontrivial(self, tr):
+        return bool(tr.counts.get('postponed_starts') and tr.counts.get('idle_due'))
+
+    def classes(self, tr):
+        c = tr.counts
+        return {k: c.get(k, 0) for k in ('postponed_starts', 'ontime_starts', 'idle_due', 'buffer_refusals',
+                                         'machine_refusals', 'capacity_refusals')}
+
+    def summary(self, tr):
+        s = super().summary(tr)
+        u = 1
+        s['begins'] = {n: r['begin'] for n, r in tr.obs.items()}
+        s['refusals'] = tr.counts.get('capacity_refusals', 0)
+        return s
+
+
+# ----------------------------------------------------------------------------------------- C09
+
+class C09(SimSpec):
+    prop = 'C09'
+    cases = {'quick': 400, 'thorough': 12000}
+    rule = ("BatchPlanning+BatchProcessing scenarios (partitions 1-3, minimum, optional per-observation split, >= 2 observations "
+            "so that workflows and ingests compete); non-trivial = >= 2 reservations live at once, or >= 1 refused provisioning "
+            "round; distinct = distinct canonical scenario JSON")
+    level_text = ("exploration: every workflow-task allocation lands on a machine the shadow model holds reserved for that "
+                  "observation; ingest and reservations only take unreserved free machines; a reservation's machine set never "
+                  "changes; live reservations <= partitions after every event; sizes within floor(n/partitions) or the split and "
+                  ">= minimum; at dequeue the reservation is gone and its machines are back in the free pool")
+
+    def strategy(self, tier):
+        kw = self.gen_kwargs(tier)
+        return mix((3, scenarios(algs=('batch',), min_obs=2, delays=True, **kw)),
+                   (1, scenarios(algs=('batch',), min_obs=3, start_gaps=(0, 0, 1, 2), **kw)))
+
+    def nontrivial(self, tr):
+        return tr.max_alive.get('res', 0) >= 2 or bool(tr.counts.get('provision_refused_rounds'))
+
+    def classes(self, tr):
+        return {'max_live_reservations>=2': int(tr.max_alive.get('res', 0) >= 2),
+                'provision_refused_rounds': tr.counts.get('provision_refused_rounds', 0),
+                'reservations_made': tr.counts.get('reservations_made', 0),
+                'split': int(bool(tr.sc['alg'].get('split')))}
+
+    def summary(self, tr):
+        s = super().summary(tr)
+        s['alg'] = tr.sc['alg']
+        s['reservations'] = [list(x) for x in tr.reservation_sizes[:6]]
+        return s
+
+
+# ----------------------------------------------------------------------------------------- C12
+
+def ingest_end_orders(tr):
+    """(in order, reversed): pairs of overlapping ingests that end in start order / in the opposite order"""
+    iv = [(r['begin'], r['begin'] + len(r['deposits'])) for r in tr.obs.values() if r['begin'] is not None]
+    iv.sort()
+    same = rev = 0
+    for i in range(len(iv)):
+        for j in range(i + 1, len(iv)):
+            if iv[j][0] < iv[i][1]:
+                if iv[j][1] < iv[i][1]:
+                    rev += 1
+                elif iv[j][1] > iv[i][1]:
+                    same += 1
+    return same, rev
+
+
+class C12(SimSpec):
+    prop = 'C12'
+    cases = {'quick': 400, 'thorough': 12000}
+    rule = ("scenarios with >= 2 observations, all shipped pairings; non-trivial = at least two ingests overlapped in time "
+            "(classes report whether they ended in start order or reversed); every row of the per-timestep table is compared; "
+            "distinct = distinct canonical scenario JSON")
+    level_text = ("exploration: number of rows == number of simulated steps, index contiguous, and for every step t each listed "
+                  "column of row t equals the shadow model's snapshot taken before the first event of step t")
+
+    def strategy(self, tier):
+        kw = self.gen_kwargs(tier)
+        return mix((3, scenarios(min_obs=2, delays=True, start_gaps=(0, 0, 1, 1, 2, 3), overlap=True,
+                                 modes=('roomy',), max_duration=8, **kw)),
+                   (1, scenarios(min_obs=2, delays=True, start_gaps=(0, 0, 1, 1, 2, 3), **kw)),
+                   (1, scenarios(delays=True, **kw)))
+
+    def nontrivial(self, tr):
+        same, rev = ingest_end_orders(tr)
+        return same + rev >= 1 or any(
+            a['t'] < b_['end'] and b_['t'] < a['end'] for a in tr.allocs for b_ in tr.allocs
+            if a is not b_ and a['ingest'] and b_['ingest'] and a['obs'] != b_['obs'] and a['end'] is not None and b_['end'] is not None)
+
+    def classes(self, tr):
+        same, rev = ingest_end_orders(tr)
+        return {'overlapping_ingests_end_in_order': same, 'overlapping_ingests_end_reversed': rev,
+                'rows_compared': 0 if tr.df is None else len(tr.df)}
+
+    def summary(self, tr):
+        s = super().summary(tr)
+        s['rows'] = None if tr.df is None else len(tr.df)
+        if tr.df is not None and len(tr.df) > 2:
+            t = len(tr.df) // 2
+            s['row_sample'] = {'t': t, 'reported': {c: int(tr.df[c][t]) for c in O.C12_COLS}, 'shadow': tr.snaps.get(t)}
+        return s
+
+
+# ----------------------------------------------------------------------------------------- C13
+
+class C13(SimSpec):
+    prop = 'C13'
+    cases = {'quick': 360, 'thorough': 10000}
+    rule = ("scenarios with observations starting at t=0 and at t>0 (the two process orders), all shipped pairings; half of the "
+            "cases are additionally re-run paused at generated points and resumed to the same end; non-trivial = >= 2 "
+            "observations with life-cycle transitions in the same timestep, or an observation starting at t>0 in a multi-"
+            "observation plan; distinct = distinct canonical scenario JSON")
+    level_text = ("exploration: per observation exactly one log entry per life-cycle transition, stamped with the shadow model's "
+                  "time of that transition; causal chain ordered; buffer added == started; buffer removed == allocation stopped; "
+                  "finished == started + duration; log times non-decreasing; same for paused/resumed runs")
+
+    def strategy(self, tier):
+        kw = self.gen_kwargs(tier)
+        base = mix((3, scenarios(min_obs=2, delays=True, **kw)), (1, scenarios(**kw)))
+
+        def add(pair):
+            sc, fr = pair
+            sc = dict(sc)
+            sc['pause_frac'] = fr
+            return sc
+        return st.tuples(base, st.one_of(st.just([]), st.lists(st.floats(0.02, 0.98), min_size=1, max_size=3))).map(add)
+
+    def run(self, sc):
+        tr = run_scenario(sc)
+        tr.paused = None
+        if tr.status == 'completed' and sc.get('pause_frac'):
+            T = int(tr.final_now)
+            pts = sorted({max(1, min(T - 1, int(f * T))) for f in sc['pause_frac']}) if T > 1 else []
+            if pts:
+                tr.paused = run_scenario(sc, pause=pts + [T])
+                tr.paused.pause_points = pts
+        return tr
+
+    def violations(self, tr):
+        out = O.C13(tr)
+        if tr.paused is not None:
+            p = tr.paused
+            if p.status != 'completed':
+                out.append(O.V('C13', 'paused_run_failed', f"paused at {p.pause_points}: {p.status} {getattr(p, 'exc_sig', '')}"))
+            else:
+                for v in O.C13(p):
+                    v = dict(v)
+                    v['part'] = 'paused_' + v['part']
+                    v['msg'] = f"(paused at {p.pause_points}) " + v['msg']
+                    out.append(v)
+        return out
+
+    def nontrivial(self, tr):
+        if tr.status != 'completed':
+            return False
+        times = {}
+        for n, r in tr.obs.items():
+            for k in ('begin', 'finish', 'queued_at', 'dequeued_at', 'alloc_started_at', 'freed_at'):
+                if r[k] is not None:
+                    times.setdefault(int(r[k]), set()).add(n)
+        same_step = any(len(v) >= 2 for v in times.values())
+        late = len(tr.obs) >= 2 and any(r['begin'] and r['begin'] > 0 for r in tr.obs.values())
+        return same_step or late
+
+    def classes(self, tr):
+        return {'paused_variant': int(tr.paused is not None),
+                'starts_at_0': sum(1 for r in tr.obs.values() if r['begin'] == 0),
+                'starts_later': sum(1 for r in tr.obs.values() if r['begin'])}
+
+    def summary(self, tr):
+        s = super().summary(tr)
+        s['log_entries'] = None if tr.events_df is None else len(tr.events_df)
+        s['paused_at'] = None if tr.paused is None else tr.paused.pause_points
+        return s
+
+
+# ----------------------------------------------------------------------------------------- C17
+
+class C17(SimSpec):
+    prop = 'C17'
+    cases = {'quick': 400, 'thorough': 12000}
+    rule = ("ListPlanning + DynamicSchedulingFromPlan scenarios with generated task->machine maps on heterogeneous clusters "
+            "(many tasks piled on one machine), ingest and concurrent workflows contending; non-trivial = at least one scheduling "
+            "round in which a ready task's planned machine was held while another machine was free (a forced wait); "
+            "distinct = distinct canonical scenario JSON")
+    level_text = ("exploration: the machine of every execution equals the machine recorded when Planner.run returned; no task "
+                  "runs on two machines")
+
+    def strategy(self, tier):
+        kw = self.gen_kwargs(tier)
+        return mix((3, scenarios(algs=('dynamic',), piled_plans=True, min_obs=2, delays=True, **kw)),
+                   (1, scenarios(algs=('dynamic',), piled_plans=True, **kw)))
+
+    def nontrivial(self, tr):
+        return bool(tr.counts.get('forced_wait_rounds'))
+
+    def classes(self, tr):
+        return {'forced_wait_rounds': tr.counts.get('forced_wait_rounds', 0)}
+
+    def summary(self, tr):
+        s = super().summary(tr)
+        s['forced_wait_rounds'] = tr.counts.get('forced_wait_rounds', 0)
+        s['plan'] = {n: {t['gid']: t['machine'] for t in p['tasks']} for n, p in list(tr.plans.items())[:2]}
+        return s
+
+
+# ----------------------------------------------------------------------------------------- C19 (simulation trajectories)
+
+class C19(SimSpec):
+    prop = 'C19'
+    cases = {'quick': 400, 'thorough': 12000}
+    rule = ("simulation trajectories of all shipped pairings (queries evaluated at every end of step) plus cluster operation "
+            "histories (ClusterOps state machine, query evaluated after every rule); non-trivial = trajectory in which the "
+            "cluster query's truth and the buffer query's truth each took both values; distinct = distinct canonical scenario JSON")
+    level_text = ("exploration: an actor's idle/empty answer of True must be true in the shadow model (no active allocation; ledger "
+                  "shows both tiers full; shadow queue empty; all observations finished and no arrays in use), and "
+                  "Simulation.is_finished() == conjunction of the four shadow truths, at every end of step")
+
+    def strategy(self, tier):
+        kw = self.gen_kwargs(tier)
+        return scenarios(delays=True, **kw)
+
+    def nontrivial(self, tr):
+        c = tr.counts
+        return all(c.get(k) for k in ('q_cluster_True', 'q_cluster_False', 'q_buffer_True', 'q_buffer_False'))
+
+    def classes(self, tr):
+        return {k: v for k, v in tr.counts.items() if k.startswith('q_')}
+
+    def summary(self, tr):
+        s = super().summary(tr)
+        s['query_truth_counts'] = {k: v for k, v in tr.counts.items() if k.startswith('q_')}
+        return s
+
+
+for _c in (C01, C03, C04, C07, C08, C09, C12, C13, C17, C19):
+    register(_c)
